@@ -1,10 +1,11 @@
 #!/bin/sh
-# usage: tools/mut.sh 'python-snippet editing files relative to scratch copy' target...
-# Applies a mutation to a scratch copy of /repo/monkeytype under $TMPDIR and runs pyvc on the given targets.
+# usage: tools/mut.sh 'sub("monkeytype/x.py", old, new); ...' target...
+# Applies a mutation to a scratch copy of /repo/monkeytype and runs pyvc on the given targets.
 set -e
 D=$(mktemp -d /tmp/mutXXXXXX)
 cp -r /repo/monkeytype "$D/"
 SNIP="$1"; shift
-(cd "$D" && python3 -c "$SNIP")
+(cd "$D" && python3 -c "import sys; sys.path.insert(0,'/verif/tools'); from sub import sub
+$SNIP")
 PYVC_REPO="$D" timeout 900 python3-vt -u /verif/tools/run_targets.py "$@" 2>&1 | grep -v condarc
 rm -rf "$D"
